@@ -63,6 +63,10 @@ add("C17", "hypothesis-generated mobility matrices/fraction vectors against orde
     "Generated search over 1-4 phases x 1-3 elements with mobility ratios up to 1e8, undefined entries, simplex fractions incl. zeros, labyrinth factors and phase permutations: min <= lower Wiener <= lower HS <= upper HS <= upper Wiener <= max on defined columns, single phase -> its mobility, permutation invariance, labyrinth(1) = upper Wiener >= labyrinth(n). On Fe-Cr-Ni (fcc/bcc in both listing orders, plus sigma without mobility data) and Ni-Cr-Al: every rule x post-processing mode {none, predefined, majority, exclude} at random single- and two-phase points equals the reference that addresses phases by name; three evaluations (cache off/on/on) agree.",
     "mobility ratio <= 1e8 (conditioning); columns with undefined entries evaluated but not judged; pycalphad equilibria trusted for the per-phase data")
 
+add("C16", "hypothesis-generated stiffness pairs/eigenstrains/radii/rotations with scaling (metamorphic), variant-agreement (differential), closed-form and invariance oracles; quadrature exactness against exact Gamma-function sphere averages",
+    "Generated search over mechanically stable isotropic/cubic stiffness pairs, scalar/vector/tensor eigenstrains, sphere/needle/plate/general radii, rotations and quadrature orders: E >= 0, E(s r) = s^3 E(r), E(c eps) = c^2 E(eps), both 3x3 inversion routines, 4th-rank vs 6x6 variants, inhomogeneous = homogeneous result for equal stiffness, setter order of rotation and stiffness, closed-form dilatational sphere through the Eshelby and the spherical path, shape independence of the dilatational energy, textbook Eshelby tensor components, axis-permutation and matrix-orientation invariance (judged strictly with the built-in midpoint integration), tensor/modulus conversions, and exactness of the three Lebedev rules on monomials up to degree 12.",
+    "open finding KF-C16-1 (Lebedev node generator inexact): clauses that use the Lebedev nodes for node-dependent quantities carry a sanity envelope; the strict versions use the midpoint integration (accuracy measured)")
+
 NOT_YET = {"C09": "only the composition-cache (HashTable) clause is built so far; thermodynamic query purity on the shipped databases is pending - claimed once complete"}
 
 ALL = ["C%02d" % i for i in range(1, 21)]
